@@ -180,7 +180,49 @@ def build(run):
     return unit, hs
 
 
+def explore(run):
+    """Bounded run-time-checked contract on the diagnostics of the REAL checker (replay/src/c24.rs): every error/warning the builder
+    reports for tests/should_err, tests/should_ok, examples and units/C24/probes lies inside the source, renders without a panic, and
+    a NameError highlights the name it reports. This is the half of the statement the location calculus cannot carry (which node's
+    location is attached to which error)."""
+    import glob
+    import json
+    import os
+    import subprocess
+    from vlib import replay as rp
+    binary = rp.build(run, 'c24')
+    here = os.path.dirname(os.path.abspath(__file__))
+    files = sorted(glob.glob(os.path.join(run.repo, 'tests', 'should_err', '*.er')) + glob.glob(os.path.join(run.repo, 'tests', 'should_ok', '*.er'))
+                   + glob.glob(os.path.join(run.repo, 'examples', '*.er')) + glob.glob(os.path.join(here, 'probes', '*.er')))
+    p = subprocess.run([binary], input='\n'.join(files) + '\n', capture_output=True, text=True, timeout=1800, cwd=os.path.join(run.repo, 'tests', 'should_err'))
+    fds = []
+    n_diag = n_unknown = n_files = 0
+    for ln in p.stdout.split('\n'):
+        if not ln.startswith('{'):
+            continue
+        j = json.loads(ln)
+        n_files += 1
+        n_diag += j["diagnostics"]
+        n_unknown += j["unknown_loc"]
+        seen = set()
+        for v in j["violations"]:
+            if 'not a diagnostic defect' in v:
+                continue
+            key = "%s|%s" % (os.path.basename(j["file"]), re.sub(r'\d+', 'N', v)[:110])
+            if key in seen:
+                continue
+            seen.add(key)
+            fds.append({"key": key, "verdict": "%s: %s" % (os.path.basename(j["file"]), v), "input": {"file": j["file"]},
+                        "how": "the real HIRBuilder on the file; every reported error/warning checked against the source text",
+                        "oracle": "location inside the source (lines exist, columns within the line, begin <= end); rendering does not panic; NameError highlights the reported name",
+                        "replay_cmd": "echo %s | %s" % (j["file"], binary)})
+    run.extra["bounded_contract_on_diagnostics"] = {"files": n_files, "diagnostics_checked": n_diag, "diagnostics_without_location": n_unknown,
+                                                    "corpus": "tests/should_err, tests/should_ok, examples, units/C24/probes"}
+    return {"found": bool(fds), "findings": fds, "note": "%d files, %d diagnostics, %d findings" % (n_files, n_diag, len(fds))}
+
+
 def run(run, replay=None):
+    run.explorations.append(("diagnostics", lambda: explore(run)))
     unit, hs = build(run)
     res = unit.run([h[0] for h in hs], jobs=8, timeout_s=600)
     run.note_functions(unit.snippets)
